@@ -1,55 +1,175 @@
-"""Bounded path enumeration over one MIR body with along-path constant folding.
+"""Bounded path enumeration over one MIR body with an along-path symbolic environment.
 
-A path is a list of events:
-  ("cond", term, label)            a branch decision (normalised as in mir.normalise_cond)
-  ("call", bb, name, args, dest)   a call (terms), in execution order
-  ("assign", bb, place_term, rvalue_term)   writes through projections (field stores)
-ending in an exit descriptor.  Loops: every block may be entered at most
-`max_visits` times per path (default 2: zero and one iteration of each loop).
-Feasibility pruning is constant folding only: locals assigned literal
-constants along the path (drop flags, version variables) decide later
-switches on them.  No solver, no evaluation of repository code."""
+Along each path every local holds a *term* (value numbering along that path: copies/moves transparent, calls
+uninterpreted, literals folded).  A path is a list of events:
+  ("cond", term, label, bb)                   a branch decision (normalised as in mir.normalise_cond)
+  ("call", bb, name, args, dest, callterm)    a call, in execution order
+  ("assign", bb, place_term, value_term)      a store through a projection (field stores)   [want_assign]
+  ("ret", bb, term)                           assignment to the return place
+ending in an exit descriptor.  Loops: every block may be entered at most `max_visits` times per path
+(default 2: zero and one iteration of each loop).  Feasibility pruning is constant folding only: a switch whose
+operand folds to a literal follows that edge.  No solver; no repository code is executed."""
 from . import mir
-from .mir import callee_name
+from .mir import callee_name, const_term
 
 
 class Budget(Exception):
     pass
 
 
-def _const_of(op, env):
-    if "c" in op:
-        c = op["c"]
-        if "v" in c:
-            return c["v"]
-        return None
-    pl = op.get("cp") or op.get("mv")
-    if pl is not None and not pl.get("p"):
-        return env.get(pl["l"])
+FOLD = {
+    "Lt": lambda a, b: int(a < b), "Le": lambda a, b: int(a <= b), "Gt": lambda a, b: int(a > b),
+    "Ge": lambda a, b: int(a >= b), "Eq": lambda a, b: int(a == b), "Ne": lambda a, b: int(a != b),
+    "BitAnd": lambda a, b: a & b, "BitOr": lambda a, b: a | b, "BitXor": lambda a, b: a ^ b,
+    "Shr": lambda a, b: a >> b, "Shl": lambda a, b: a << b,
+}
+
+
+def _cval(t):
+    if isinstance(t, tuple) and t and t[0] == "c" and isinstance(t[2], int):
+        return t[2]
     return None
 
 
-def _subst(t, envt):
-    """replace opaque multi-definition locals by the value they were last given on this path"""
-    if not envt or not isinstance(t, tuple):
+class Sym:
+    """symbolic evaluation of operands/rvalues under an environment local -> term"""
+
+    def __init__(self, b):
+        self.b = b
+
+    def local(self, l, env):
+        if l in env:
+            return env[l]
+        b = self.b
+        if 1 <= l <= b.argc:
+            return ("arg", l - 1, b.names.get(l, "_%d" % l))
+        # not yet assigned on this path (e.g. used before definition in a loop): opaque
+        return ("var", l, b.names.get(l, "_%d" % l))
+
+    def place(self, pl, env):
+        t = self.local(pl["l"], env)
+        for e in pl.get("p", []):
+            if e == "*":
+                t = mir.strip_ref(t)
+            elif isinstance(e, str):
+                pass
+            elif "f" in e:
+                t = self._field(t, str(e.get("n", e["f"])), e["f"])
+            elif "dc" in e:
+                t = ("dc", t, str(e.get("n", e["dc"])))
+            elif "idx" in e:
+                t = ("idx", t, self.local(e["idx"], env))
+            elif "ci" in e:
+                t = ("idx", t, ("c", "usize", (-1 - e["ci"]) if e.get("from_end") else e["ci"], None))
+            elif "sub" in e:
+                t = ("sub", t, e["sub"], e["to"], bool(e.get("from_end")))
         return t
-    if t and t[0] == "var" and t[1] in envt:
-        return envt[t[1]]
-    return tuple(_subst(x, envt) if isinstance(x, tuple) else x for x in t)
+
+    def _field(self, t, name, idx):
+        # projection of a known tuple aggregate: take the operand
+        x = t
+        if isinstance(x, tuple) and x and x[0] == "agg" and x[1] in ("tuple",) and idx < len(x[3]):
+            return x[3][idx]
+        return ("f", t, name)
+
+    def operand(self, op, env):
+        if "c" in op:
+            return const_term(op["c"])
+        pl = op.get("cp") or op.get("mv")
+        if pl is None:
+            return ("?",)
+        return self.place(pl, env)
+
+    def rvalue(self, rv, env):
+        k = rv["k"]
+        if k == "use":
+            return self.operand(rv["a"], env)
+        if k in ("ref", "rawptr"):
+            inner = self.place(rv["pl"], env)
+            m = str(rv.get("m"))
+            if m == "mut" or "Mut" in m:
+                return ("refmut", self._root(rv["pl"], env), inner)
+            return ("ref", inner)
+        if k == "cast":
+            a = self.operand(rv["a"], env)
+            v = _cval(a)
+            if v is not None and str(rv.get("ck", "")).startswith("IntToInt"):
+                return ("c", rv["to"], _wrap(v, rv["to"]), None)
+            return ("cast", a, rv["to"])
+        if k == "bin":
+            a = self.operand(rv["a"], env)
+            c = self.operand(rv["b"], env)
+            va, vb = _cval(a), _cval(c)
+            if va is not None and vb is not None and rv["op"] in FOLD:
+                try:
+                    r = FOLD[rv["op"]](va, vb)
+                    ty = "bool" if rv["op"] in ("Lt", "Le", "Gt", "Ge", "Eq", "Ne") else a[1]
+                    return ("c", ty, r, None)
+                except Exception:
+                    pass
+            return ("bin", rv["op"], a, c)
+        if k == "un":
+            a = self.operand(rv["a"], env)
+            v = _cval(a)
+            if v is not None and rv["op"] == "Not" and a[1] == "bool":
+                return ("c", "bool", int(not v), None)
+            return ("un", rv["op"], a)
+        if k == "discr":
+            pt = self.place(rv["pl"], env)
+            return ("discr", pt, mir.adt_base(rv.get("of", "")))
+        if k == "agg":
+            ops = tuple(self.operand(o, env) for o in rv["ops"])
+            ak = rv["ak"]
+            if ak == "adt":
+                return ("agg", rv["adt"], rv["variant"], ops)
+            if ak == "closure":
+                return ("closure", rv["closure"], ops)
+            return ("agg", ak, None, ops)
+        if k == "repeat":
+            return ("repeat", self.operand(rv["a"], env), rv["n"])
+        return ("?", k)
+
+    def _root(self, pl, env):
+        l = pl["l"]
+        proj = pl.get("p", [])
+        if proj and proj[0] == "*":
+            t = self.local(l, env)
+            while isinstance(t, tuple) and t and t[0] == "mutated":
+                t = t[1]
+            if isinstance(t, tuple) and t and t[0] == "refmut":
+                return t[1]
+        return l
+
+    def call(self, t, env, site):
+        name = callee_name(t["f"])
+        args = tuple(self.operand(a, env) for a in t["args"])
+        if any(mir._has_refmut(a) for a in args):
+            return ("call", name, args, site)
+        return ("call", name, args)
 
 
-def enumerate_paths(b, start=0, max_paths=20000, max_visits=2, stop_at=None, want_assign=False):
-    """yield (events, exit) for every path from `start`.
-    exit = ("return", bb) | ("unreachable", bb) | ("diverge", bb, name) | ("stop", bb)"""
+def _wrap(v, ty):
+    bits = {"u8": 8, "u16": 16, "u32": 32, "u64": 64, "usize": 64, "u128": 128}.get(ty)
+    if bits:
+        return v & ((1 << bits) - 1)
+    return v
+
+
+def enumerate_paths(b, start=0, max_paths=20000, max_visits=2, stop_at=None, want_assign=False, env0=None,
+                    track_out=True):
+    """list of (events, exit) for every path from `start`.
+    exit = ("return", bb) | ("unreachable", bb) | ("diverge", bb, name) | ("stop", bb) | ("other", bb)
+    env0: {local: int} constants assumed for parameters (selects a match arm by constant folding)"""
     out = []
     n_paths = [0]
+    sym = Sym(b)
+    env_init = {}
+    for l, v in (env0 or {}).items():
+        env_init[l] = ("c", b.locals[l], v, None)
 
-    multi = {l for l, ds in b.defs().items() if isinstance(l, int) and len(ds) > 1 and l > b.argc}
-
-    def walk(bb, env, events, visits, envt=None):
-        envt = envt or {}
+    def walk(bb, env, events, visits):
         while True:
-            if stop_at is not None and bb in stop_at and events:
+            if stop_at is not None and bb in stop_at and (events or bb != start):
                 out.append((events, ("stop", bb)))
                 return
             v = visits.get(bb, 0)
@@ -63,22 +183,20 @@ def enumerate_paths(b, start=0, max_paths=20000, max_visits=2, stop_at=None, wan
                 if s["k"] != "assign":
                     continue
                 pl = s["pl"]
+                val = sym.rvalue(s["rv"], env)
                 if not pl.get("p"):
-                    rv = s["rv"]
-                    if pl["l"] in multi:
-                        envt = dict(envt)
-                        envt[pl["l"]] = _subst(b.rvalue_term(rv), envt)
-                    val = None
-                    if rv["k"] == "use":
-                        val = _const_of(rv["a"], env)
-                    if val is None:
-                        env.pop(pl["l"], None)
-                    else:
-                        env[pl["l"]] = val
+                    env[pl["l"]] = val
                     if pl["l"] == 0:
-                        events = events + [("ret", bb, _subst(b.rvalue_term(rv), envt))]
-                elif want_assign:
-                    events = events + [("assign", bb, b.place_term(pl), _subst(b.rvalue_term(s["rv"]), envt))]
+                        events = events + [("ret", bb, val)]
+                else:
+                    if want_assign:
+                        events = events + [("assign", bb, sym.place(pl, env), val)]
+                    # a store through a projection changes the local: mark it
+                    root = pl["l"]
+                    if pl["p"] and pl["p"][0] != "*":
+                        cur = sym.local(root, env)
+                        if not (isinstance(cur, tuple) and cur and cur[0] == "mutated"):
+                            env[root] = ("mutated", cur, root)
             t = blk["t"]
             k = t["k"]
             if k == "return":
@@ -98,22 +216,31 @@ def enumerate_paths(b, start=0, max_paths=20000, max_visits=2, stop_at=None, wan
                 bb = t["t"]
                 continue
             if k == "call":
-                name = callee_name(t["f"])
-                ct = _subst(b.call_term(t), envt)
+                ct = sym.call(t, env, bb)
+                name = ct[1]
                 events = events + [("call", bb, name, ct[2], t["dest"]["l"], ct)]
-                env.pop(t["dest"]["l"], None)
-                if t["dest"]["l"] in multi and not t["dest"].get("p"):
-                    envt = dict(envt)
-                    envt[t["dest"]["l"]] = ct
-                if t["dest"]["l"] == 0 and not t["dest"].get("p"):
-                    events = events + [("ret", bb, ct)]
+                if not t["dest"].get("p"):
+                    env[t["dest"]["l"]] = ct
+                    if t["dest"]["l"] == 0:
+                        events = events + [("ret", bb, ct)]
+                if track_out:
+                    # `&mut local` handed to a call: afterwards the local holds whatever the callee left there
+                    for ai, a_ in enumerate(ct[2]):
+                        x = a_
+                        while isinstance(x, tuple) and x and x[0] == "mutated":
+                            x = x[1]
+                        if isinstance(x, tuple) and x and x[0] == "refmut" and isinstance(x[1], int):
+                            root = x[1]
+                            if root != t["dest"]["l"] and not (1 <= root <= b.argc and _is_refparam(b, root)):
+                                env[root] = ("out", ct, ai)
                 if t["t"] is None:
                     out.append((events, ("diverge", bb, name)))
                     return
                 bb = t["t"]
                 continue
             if k == "switch":
-                cv = _const_of(t["d"], env)
+                dterm = sym.operand(t["d"], env)
+                cv = _cval(dterm)
                 if cv is not None:
                     tgt = t["otherwise"]
                     for val, tb in t["targets"]:
@@ -121,32 +248,35 @@ def enumerate_paths(b, start=0, max_paths=20000, max_visits=2, stop_at=None, wan
                             tgt = tb
                     bb = tgt
                     continue
-                # real branch
                 by_t = {}
                 for val, tb in t["targets"]:
                     by_t.setdefault(tb, []).append(val)
                 taken = tuple(sorted(v_ for v_, _ in t["targets"]))
-                dterm = _subst(b.operand_term(t["d"]), envt)
                 branches = [(tb, ("in", tuple(sorted(vals)))) for tb, vals in by_t.items()]
                 branches.append((t["otherwise"], ("notin", taken)))
                 for tb, lab in branches:
                     if b.blocks[tb]["t"]["k"] == "unreachable" and not b.blocks[tb]["s"]:
                         continue
                     cond = mir.normalise_cond(b.fb, dterm, lab, t["dty"])
-                    # remember which constant a local switched on has, for re-dispatch on the same local
                     env2 = env
                     pl = t["d"].get("cp") or t["d"].get("mv")
-                    if pl is not None and not pl.get("p") and lab[0] == "in" and len(lab[1]) == 1:
+                    if pl is not None and not pl.get("p") and lab[0] == "in" and len(lab[1]) == 1 and \
+                            not (isinstance(dterm, tuple) and dterm[0] == "discr"):
                         env2 = dict(env)
-                        env2[pl["l"]] = lab[1][0]
-                    walk(tb, env2, events + [("cond", cond[0], cond[1], bb)], visits, envt)
+                        env2[pl["l"]] = ("c", t["dty"], lab[1][0], None)
+                    walk(tb, env2, events + [("cond", cond[0], cond[1], bb)], visits)
                 return
-            # tailcall / other
             out.append((events, ("other", bb)))
             return
 
-    walk(start, {}, [], {})
+    walk(start, env_init, [], {})
     return out
+
+
+def _is_refparam(b, l):
+    """parameter of reference type (`out: &mut Vec<u8>`): `&mut *param` re-borrows, it does not replace the param"""
+    ty = b.locals[l] if l < len(b.locals) else ""
+    return ty.startswith("&")
 
 
 def ret_of(events):
@@ -159,7 +289,7 @@ def ret_of(events):
 
 
 def ret_class(events):
-    """'Ok'/'Some'/'Err'/'None'/'true'/'false'/'call:<name>'/'other'"""
+    """'Ok'/'Some'/'Err'/'None'/'true'/'false'/'call'/'unit'/'other'"""
     r = ret_of(events)
     if r is None:
         return "unit"
@@ -171,6 +301,8 @@ def ret_class(events):
         return "call"
     if r[0] == "c" and r[1] == "bool":
         return "true" if r[2] else "false"
+    if r[0] == "agg" and r[1] == "tuple" and not r[3]:
+        return "unit"
     return "other"
 
 
